@@ -131,6 +131,8 @@ partial def prog : Sexp → Option Prog
   | .list [.atom "iterate_final", p, n] => do pure (Derived.iterateFinal (← prog p) (← n.nat?))
   | .list [.atom "masked_iterate", p] => do pure (Derived.maskedIterate (← prog p))
   | .list [.atom "masked_iterate_final", p] => do pure (Derived.maskedIterateFinal (← prog p))
+  | .list [.atom "closure", p, .list stored, n] => do
+    pure (Derived.closure (← prog p) (← stored.mapM Sexp.int?) (← n.nat?))
   | _ => none
 partial def body : Sexp → Option Body
   | .list [.atom "ret", e] => do pure (.ret (← expr e))
@@ -215,6 +217,30 @@ def step (p : Prog) (st : St) (op : Sexp) : St × Sexp :=
       | .error e => (st, showErr e)
     | none, _, _, _ => (st, noTrace)
     | _, _, _, _ => (st, badOp)
+  | .list [.atom "propose", seed, a] =>
+    match seed.nat?, val a with
+    | some s, some a =>
+      match propose ds p [s] a with
+      | .ok (c, sc, r) => (st, .list [.atom "ok", .list [.atom "choices", showCMap c], .list [.atom "w", Sexp.ofInt sc],
+                                  .list [.atom "ret", showVal r]])
+      | .error e => (st, showErr e)
+    | _, _ => (st, badOp)
+  | .list [.atom "empty", seed, a, nc, ch] =>
+    match st.cur, seed.nat?, val a, nc.bool?, ch.bool? with
+    | some t, some s, some a, some nc, some ch =>
+      match emptyRequest ds p [s] t a nc ch with
+      | .ok r => ({ cur := some r.tr, lastBwd := some r.bwd }, showRes r)
+      | .error e => (st, showErr e)
+    | none, _, _, _, _ => (st, noTrace)
+    | _, _, _, _, _ => (st, badOp)
+  | .list (.atom "subtrace" :: addr) =>
+    match st.cur, strs (.list addr) with
+    | some t, some a =>
+      match t.subtrace a with
+      | some s => (st, .list [.atom "ok", .list [.atom "w", Sexp.ofInt s.score], .list [.atom "choices", showCMap s.choices]])
+      | none => (st, showErr .missing)
+    | none, _ => (st, noTrace)
+    | _, _ => (st, badOp)
   | .list [.atom "proj", sel] =>
     match st.cur, SelD.term sel with
     | some t, some sel =>
